@@ -162,6 +162,12 @@ Outcome run_once_here(const OpEntry& e, Ctx& c, std::uint64_t seed, long p0, lon
   } catch (const std::bad_alloc&) {
     o.cls = 1;
     o.type = "std::bad_alloc";
+  } catch (const vrt::SinkError& ex) {
+    o.cls = 3;   // the device's own exception, re-thrown by the stream because the CALLER turned its exception mask on
+    o.type = typeid(ex).name();
+  } catch (const std::ios_base::failure& ex) {
+    o.cls = 3;   // what a stream throws when the CALLER turned its exception mask on; allowed only then
+    o.type = typeid(ex).name();
   } catch (const std::exception& ex) {
     o.cls = 2;
     o.type = typeid(ex).name();
@@ -202,9 +208,9 @@ struct Stats {
   long execs = 0, fired = 0, bad_alloc = 0, silent = 0, sink_refused = 0, viol = 0, not_fired = 0, nonfinite = 0, spontaneous_bad_alloc = 0;
 };
 
-void check_outcome(const OpEntry& e, const Outcome& o, bool fault_fired, const char* fdesc, Stats& st) {
+void check_outcome(const OpEntry& e, const Outcome& o, bool fault_fired, const char* fdesc, Stats& st, bool mask_on = false) {
   bool parser = (e.flags & vrt::kParser) != 0;
-  if (o.cls == 2) {
+  if (o.cls == 2 || (o.cls == 3 && !mask_on)) {
     say("V %ld %ld %s:%s fault=%s\n", g_run, g_opidx, parser ? "parser-threw" : "foreign-exception", o.type.c_str(), fdesc);
     ++st.viol;
   } else if (o.cls == 1) {
@@ -352,6 +358,21 @@ void execute(const OpEntry& e, std::uint64_t seed, long p0, long p1, int slot, c
       Outcome r1 = run_once(e, c, seed, p0, p1, &nb);
       ++st.execs; ++st.fired; ++st.sink_refused;
       check_outcome(e, r1, false, "sink:nullbuf", st);
+      // the caller's exception mask ON with a failing sink: std::ios_base::failure is then the caller's own request and may
+      // propagate; what must not happen is std::terminate (a noexcept boundary inside the library) or any other exception
+      for (int variant = 0; variant < 6; ++variant) {
+        g_phase = "E1-maskon";
+        Scratch sm;
+        sm.buf.budget = (variant % 3 == 0) ? 0 : (variant % 3 == 1 ? len0 / 2 : (len0 > 0 ? len0 - 1 : 0));
+        sm.buf.mode = variant < 3 ? vrt::FaultBuf::kEof : vrt::FaultBuf::kThrow;
+        sm.os.exceptions(variant % 2 ? std::ios::badbit : (std::ios::badbit | std::ios::failbit));
+        Outcome rm = run_once(e, c, seed, p0, p1, &sm.os);
+        ++st.execs;
+        if (sm.buf.refused > 0) { ++st.sink_refused; ++st.fired; } else ++st.not_fired;
+        char fd[48];
+        std::snprintf(fd, sizeof fd, "sink:maskon:%d", variant);
+        check_outcome(e, rm, false, fd, st, true);
+      }
       for (long w : {-1L, -4L, static_cast<long>(std::numeric_limits<int>::min()), 70000L}) {
         g_phase = "E1-width";
         Scratch sw;
